@@ -10,12 +10,17 @@ pub mod c07;
 pub mod c08;
 pub mod c25;
 pub mod c30;
+pub mod logs;
 pub mod ops;
 pub mod serde1;
 pub mod serde2;
 
 pub fn dispatch(ctx: &mut Ctx) {
     match ctx.prop.as_str() {
+        "C01" => logs::run_c01(ctx),
+        "C09" => logs::run_c09(ctx),
+        "C10" => logs::run_c10(ctx),
+        "C32" => logs::run_c32(ctx),
         "C02" => c02::run(ctx),
         "C03" => c03::run(ctx),
         "C04" => c04::run(ctx),
